@@ -24,7 +24,9 @@ def extra_templates(b):
     FIRST `]` (no doubling), so what follows `]]` is outside quoted text again (round 9)"""
     ph = "$1" if b == "pg" else "?"
     return ["arr[idx[1]] = %s" % ph, "a[b[c]]] %s" % ph, "[x]]%s" % ph, "m[1][2] = %s AND n[k[%s]] = 1" % (ph, ph),
-            "[]] %s []" % ph, "']]' = %s" % ph, "a]] %s" % ph, "[%s]]%s" % (ph, ph)]
+            "[]] %s []" % ph, "']]' = %s" % ph, "a]] %s" % ph, "[%s]]%s" % (ph, ph),
+            # line ends and other blanks are characters of the fragment like any other (inside and outside quotes)
+            "a\r\nb = %s" % ph, "'x\r\ny' = %s\r\n" % ph, "a\tb\n= %s" % ph, "\r%s\r" % ph, "'\n' || %s || '\r'" % ph]
 
 
 def spec_render(b, tmpl, lits, params_mode):
